@@ -231,10 +231,11 @@ Qed.
 Lemma good_to_sdk t ia K now i pk a pk' :
   wf_topo t = true -> lens_two (p_lens (k_path pk)) ->
   sum_nat (p_lens (k_path pk)) = length (p_hops (k_path pk)) ->
+  (length (p_hops (k_path pk)) <= 64)%nat ->
   good_step mac t ia K now i pk a pk' ->
   sdk_route mac t ia K now i pk = (a, pk').
 Proof.
-  intros W L2 Hsum G. pose proof (lens_two_ok _ L2) as Hok.
+  intros W L2 Hsum H64 G. pose proof (lens_two_ok _ L2) as Hok.
   destruct G as
     [dst p h inf Eh Ei So Pf Hl Vt Ring Vm Hal Hd
     |dst p h inf ty Eh Ei So Pf Sn Hlt Vt Ring Vm Hal Hif Hea
@@ -284,6 +285,7 @@ Proof.
     rewrite Es, Nat.eqb_refl. cbn [negb]. rewrite upd_length, (upd_same _ _ _ Eh), Eh.
     rewrite (nth_error_upd_eq (p_infos p) (p_ci p) (seg_upd i inf h)) by (apply nth_error_Some; congruence).
     rewrite Ef.
+    assert ((63 <? S (p_ch p))%nat = false) as -> by (apply Nat.ltb_ge; lia).
     rewrite (validate_egress_intro false (hop_egress h inf) now K h (seg_upd i inf h)); [|exact Heg|rewrite Tinf; exact Vt|exact Vm].
     rewrite Cinf. fold (eg_alert h inf). rewrite Hea. cbn [andb].
     rewrite (upd_same _ _ _ Eh).
@@ -304,7 +306,8 @@ Proof.
     rewrite Es, Hst, Nat.eqb_refl, Eh, Ei. cbn [negb].
     fold (seg_upd i inf h) (in_alert h inf).
     assert ((length (p_hops p) <=? p_ch p + 1)%nat = false) as Ef by (apply Nat.leb_gt; lia).
-    rewrite Ef, Enh, Eni. rewrite E0. cbn [negb andb]. rewrite Hia.
+    rewrite Ef. assert ((63 <? S (p_ch p))%nat = false) as -> by (apply Nat.ltb_ge; lia).
+    rewrite Enh, Eni. rewrite E0. cbn [negb andb]. rewrite Hia.
     assert (Tinf : ref_time_ok now h (seg_upd i inf h) = ref_time_ok now h inf)
       by (unfold seg_upd; destruct (negb (i =? 0) && negb (i_cons inf)); reflexivity).
     assert (Iinf : hop_ingress h (seg_upd i inf h) = hop_ingress h inf)
@@ -326,6 +329,7 @@ Proof.
     rewrite Es2, Nat.eqb_refl. cbn [negb]. rewrite upd_length, (upd_same _ _ _ Eh), Enh.
     rewrite (nth_error_upd_neq (p_infos p) (p_ci p) (S (p_ci p))) by lia. rewrite Eni.
     assert ((length (p_hops p) <=? S (p_ch p) + 1)%nat = false) as -> by (apply Nat.leb_gt; lia).
+    assert ((63 <? S (S (p_ch p)))%nat = false) as -> by (apply Nat.ltb_ge; lia).
     rewrite (validate_egress_intro false (hop_egress nh ninf) now K nh ninf); [|reflexivity|exact Vt2|exact Vm2].
     fold (eg_alert nh ninf). rewrite Hea2. cbn [andb].
     rewrite (upd_same _ _ _ Enh).
@@ -339,13 +343,14 @@ Qed.
 Lemma sdk_step_complete t ia K now i pk :
   wf_topo t = true -> lens_two (p_lens (k_path pk)) ->
   sum_nat (p_lens (k_path pk)) = length (p_hops (k_path pk)) ->
+  (length (p_hops (k_path pk)) <= 64)%nat ->
   uses_peering (k_path pk) = false ->
   (forall e pk', ref_step mac t ia K now i pk = RForward e pk' ->
                  sdk_route mac t ia K now i pk = (AFwd e, pk'))
   /\ (forall pk', ref_step mac t ia K now i pk = RDeliver pk' ->
                   sdk_route mac t ia K now i pk = (ALocal, pk')).
 Proof.
-  intros W L2 Hs Sp. destruct (ref_to_good mac t ia K now i pk W L2 Hs Sp) as (A & B). split.
+  intros W L2 Hs H64 Sp. destruct (ref_to_good mac t ia K now i pk W L2 Hs Sp) as (A & B). split.
   - intros e pk' H. apply good_to_sdk; auto.
   - intros pk' H. apply good_to_sdk; auto.
 Qed.
@@ -388,16 +393,17 @@ Qed.
 Lemma ref_sim_complete fuel t now : wf_topo t = true ->
   forall ia i pk rtr x rpk,
   lens_two (p_lens (k_path pk)) -> sum_nat (p_lens (k_path pk)) = length (p_hops (k_path pk)) ->
+  (length (p_hops (k_path pk)) <= 64)%nat ->
   uses_peering (k_path pk) = false ->
   ref_sim mac fuel t now ia i pk = (rtr, RDelivered x, rpk) ->
   exists tr, sdk_sim mac fuel t now ia i pk = (tr, EndVerdict, rpk)
              /\ fwd_of_steps tr = rtr
              /\ exists pre il, tr = pre ++ [mkStep x il ALocal].
 Proof.
-  intros W. induction fuel as [|f IH]; intros ia i pk rtr x rpk L2 Hs Sp R; cbn [ref_sim sdk_sim] in *.
+  intros W. induction fuel as [|f IH]; intros ia i pk rtr x rpk L2 Hs H64 Sp R; cbn [ref_sim sdk_sim] in *.
   - inversion R.
   - destruct (find_as t ia) as [a|] eqn:Ea; [|inversion R].
-    destruct (sdk_step_complete mac t ia (a_key a) now i pk W L2 Hs Sp) as (CF & CL).
+    destruct (sdk_step_complete mac t ia (a_key a) now i pk W L2 Hs H64 Sp) as (CF & CL).
     destruct (ref_to_good mac t ia (a_key a) now i pk W L2 Hs Sp) as (GF & _).
     destruct (ref_step mac t ia (a_key a) now i pk) as [eg pk1|pk1| |why] eqn:Er; try (inversion R; fail).
     + (* forward *)
@@ -409,7 +415,8 @@ Proof.
       inversion R; subst rtr rend1 rpk; clear R.
       assert (L2' : lens_two (p_lens (k_path pk1))) by (rewrite P1; exact L2).
       assert (Hs' : sum_nat (p_lens (k_path pk1)) = length (p_hops (k_path pk1))) by (rewrite P1, P2; exact Hs).
-      destruct (IH ia' if' pk1 rtr1 x rpk1 L2' Hs' P3 R1) as (tr1 & S1 & F1 & pre & il & Et).
+      assert (H64' : (length (p_hops (k_path pk1)) <= 64)%nat) by (rewrite P2; exact H64).
+      destruct (IH ia' if' pk1 rtr1 x rpk1 L2' Hs' H64' P3 R1) as (tr1 & S1 & F1 & pre & il & Et).
       (* the next AS exists: the reference run continued there and delivered *)
       assert (Hfa : exists a', find_as t ia' = Some a').
       { destruct f; cbn [ref_sim] in R1; [inversion R1|]. destruct (find_as t ia'); [eauto|inversion R1]. }
